@@ -34,38 +34,7 @@ func checkC08(rep *Report, rng *Rng, tier string) {
 	dmodelOn = true
 	rep.Rule = "seeded histories over a file-backed store with 0..many Flush calls, re-opens, pending unflushed changes and runs of 1..8 consecutive FlushRevert calls (also past the first flush); after every step the contents of the store, the collection names, the file length and a fresh Store opened on a copy of the file image are compared with the stack of flushed reference states; a watchdog detects non-termination; memory-only stores must reject FlushRevert; non-trivial = contains at least one revert and 8 ops"
 	HistoryLoop(rep, rng, n, func(r *Rng, i int) (RunCfg, []Op, string) {
-		g := GenCfg{FileBacked: i%10 != 9, NColls: 1 + r.Intn(3), NOps: 25 + r.Intn(50), Structural: true, CollMgmt: r.Chance(1, 2), PrioMode: r.Intn(4)}
-		base := GenHistory(r, g)
-		// weave reverts in
-		var ops []Op
-		for _, o := range base {
-			ops = append(ops, o)
-			if g.FileBacked && o.K == "flush" && r.Chance(1, 5) {
-				// crash debris after the last root record (random bytes, a magic-like tail, zeros), then re-open
-				ops = append(ops, Op{K: "junk", N: 1 + r.Intn(70), Prio: int32(r.Intn(3000))})
-			}
-			if r.Chance(1, 9) {
-				k := 1
-				if r.Chance(1, 3) {
-					k = 1 + r.Intn(8)
-				}
-				for j := 0; j < k; j++ {
-					ops = append(ops, Op{K: "revert"})
-					if r.Chance(1, 4) {
-						ops = append(ops, Op{K: "names"})
-					}
-				}
-			}
-		}
-		if i%7 == 0 {
-			// the smallest cases: revert with zero or one flush
-			ops = []Op{{K: "coll", Name: "a"}, {K: "set", Name: "a", Key: []byte("k"), Val: []byte("v"), Prio: 1}}
-			for j := 0; j < i/7%3; j++ {
-				ops = append(ops, Op{K: "flush"})
-			}
-			ops = append(ops, Op{K: "revert"}, Op{K: "names"}, Op{K: "revert"})
-		}
-		d := CfgDesc{Check: "C08", FileBacked: g.FileBacked, DumpEvery: true, ReopenDump: true, Post: "revert-size", Digests: true}
+		d, ops := genC08(r, i)
 		return d.RunCfg(), ops, d.String()
 	}, nil)
 	rep.Extra["steps_compared_with_byte_level_model_DStore"] = dmodelSteps
@@ -98,3 +67,39 @@ func checkC12(rep *Report, rng *Rng, tier string) {
 }
 
 func classifyC12(m *Mismatch, ops []Op) string { return "" }
+
+func genC08(r *Rng, i int) (CfgDesc, []Op) {
+	g := GenCfg{FileBacked: i%10 != 9, NColls: 1 + r.Intn(3), NOps: 25 + r.Intn(50), Structural: true, CollMgmt: r.Chance(1, 2), PrioMode: r.Intn(4), CmpMode: r.Intn(2)}
+	base := GenHistory(r, g)
+	// weave reverts in
+	var ops []Op
+	for _, o := range base {
+		ops = append(ops, o)
+		if g.FileBacked && o.K == "flush" && r.Chance(1, 5) {
+			// crash debris after the last root record (random bytes, a magic-like tail, zeros), then re-open
+			ops = append(ops, Op{K: "junk", N: 1 + r.Intn(70), Prio: int32(r.Intn(3000))})
+		}
+		if r.Chance(1, 9) {
+			k := 1
+			if r.Chance(1, 3) {
+				k = 1 + r.Intn(8)
+			}
+			for j := 0; j < k; j++ {
+				ops = append(ops, Op{K: "revert"})
+				if r.Chance(1, 4) {
+					ops = append(ops, Op{K: "names"})
+				}
+			}
+		}
+	}
+	if i%7 == 0 {
+		// the smallest cases: revert with zero or one flush
+		ops = []Op{{K: "coll", Name: "a"}, {K: "set", Name: "a", Key: []byte("k"), Val: []byte("v"), Prio: 1}}
+		for j := 0; j < i/7%3; j++ {
+			ops = append(ops, Op{K: "flush"})
+		}
+		ops = append(ops, Op{K: "revert"}, Op{K: "names"}, Op{K: "revert"})
+	}
+	d := CfgDesc{Check: "C08", FileBacked: g.FileBacked, CmpCB: g.CmpMode == 1, DumpEvery: true, ReopenDump: true, Post: "revert-size", Digests: true}
+	return d, ops
+}
